@@ -166,8 +166,8 @@ def DataFrame_unique (truth : Term → Bool) : Out :=
   let colnames' : Term := (Term.app "Or" [(Term.sym "colnames"), (Term.app ".colnames" [(Term.sym "self")])]);
   let columns' : Term := (Term.app "ListComp" [(Term.app "getitem" [(Term.sym "self"), (Term.sym "x")]), (Term.app "in" [(Term.sym "x"), colnames', (Term.app "if" [])])]);
   let eff0 : Term := (Term.app "for" [(Term.app "tuple" [(Term.sym "i"), (Term.sym "column")]), (Term.app "enumerate" [columns']), (Term.app "block" [(Term.app "if" [(Term.app "Or" [(Term.app ".is_datetime" [(Term.sym "column")]), (Term.app ".is_float" [(Term.sym "column")]), (Term.app ".is_timedelta" [(Term.sym "column")])]), (Term.app "block" [(Term.app "store" [(Term.app "getitem" [columns', (Term.sym "i")]), (Term.app "np.where" [(Term.app ".is_na" [(Term.sym "column")]), (Term.sym "None"), (Term.sym "column")])])]), (Term.app "block" [])])])]);
-  let rows' : Term := (Term.app "list" [(Term.app "zip" [(Term.app "*" [columns'])])]);
-  let seen' : Term := (Term.app "set" []);
+  let rows' : Term := (Term.app "list()" [(Term.app "zip" [(Term.app "*" [columns'])])]);
+  let seen' : Term := (Term.app "set()" []);
   let keep' : Term := (Term.app "list" []);
   let eff1 : Term := (Term.app "for" [(Term.sym "i"), (Term.app "range" [(Term.app ".nrow" [(Term.sym "self")])]), (Term.app "block" [(Term.app "if" [(Term.app "NotIn" [(Term.app "getitem" [rows', (Term.sym "i")]), seen']), (Term.app "block" [(Term.app ".add" [seen', (Term.app "getitem" [rows', (Term.sym "i")])]), (Term.app ".append" [keep', (Term.sym "i")])]), (Term.app "block" [])])])]);
   let eff2 : Term := (Term.app "for" [(Term.app "tuple" [(Term.sym "colname"), (Term.sym "column")]), (Term.app ".items" [(Term.sym "self")]), (Term.app "block" [(Term.app "yield" [(Term.app "tuple" [(Term.sym "colname"), (Term.app ".copy" [(Term.app "getitem" [(Term.sym "column"), keep'])])])])])]);
